@@ -18,7 +18,7 @@ import (
 )
 
 func main() {
-	Main(map[string]Runner{"store": runStore, "reorg": runReorg, "crash": runCrash})
+	Main(map[string]Runner{"store": runStore, "reorg": runReorg, "crash": runCrash, "mem": runMem})
 }
 
 // ---- commits / transactions
@@ -302,9 +302,17 @@ type seqRun struct {
 	nonTrivial bool
 	past       []types.HashHeight // every id ever committed (also abandoned ones)
 	nview      int                // views are numbered in order of creation, numbers are never reused
+	memMode    bool
 }
 
 func (s *seqRun) op(o interface{}, a interface{}) {
+	if s.memMode {
+		if c, ok := o.(M); ok {
+			if name, _ := c["c"].(string); len(name) > 2 && name[:2] == "OV" {
+				o = Con("MView", o)
+			}
+		}
+	}
 	s.ops = append(s.ops, o)
 	s.ans = append(s.ans, a)
 }
